@@ -86,11 +86,19 @@ class FakeEvent:
 
 
 class FakeQueue:
+    """FIFO with the documented multiprocessing.Queue lag: an item that has just been put()
+    is handed to a feeder thread and reaches the pipe a moment later, so empty() may still
+    answer True right after put() - but only while *nothing* is in the pipe yet, i.e. while
+    every queued item is still un-flushed. A sleep flushes everything."""
+
     def __init__(self, env: "Env") -> None:
         self.env = env
-        self.items: List[Tuple[Any, str]] = []
+        self.items: List[List[Any]] = []  # [item, origin, flushed]
         self.empty_calls = 0
-        self.just_put = False
+
+    def flush(self) -> None:
+        for it in self.items:
+            it[2] = True
 
     def put(self, item: Any) -> None:
         origin = "other"
@@ -109,27 +117,24 @@ class FakeQueue:
                 origin = "signal"
                 break
             f = f.f_back
-        self.items.append((item, origin))
-        self.just_put = True
+        self.items.append([item, origin, False])
         self.env.trace("put", type(item).__name__, getattr(item, "worker_num", None), origin)
 
     def empty(self) -> bool:
         k = self.empty_calls
         self.empty_calls += 1
         lag = self.env.tick.get("lag")
-        if lag is not None and lag == k and self.items and self.just_put:
+        if lag is not None and lag == k and self.items and not any(it[2] for it in self.items):
             self.env.trace("empty-lag")
-            self.just_put = False
             self.env.on_drain_end()
             return True
-        self.just_put = False
         e = not self.items
         if e:
             self.env.on_drain_end()
         return e
 
     def get(self) -> Any:
-        item, origin = self.items.pop(0)
+        item, origin, _ = self.items.pop(0)
         self.env.trace("get", type(item).__name__, getattr(item, "worker_num", None), origin)
         self.env.monitor.on_get(item, origin)
         return item
@@ -217,7 +222,6 @@ class Env:
         self.late_done = False
         if self.queue is not None:
             self.queue.empty_calls = 0
-            self.queue.just_put = False
         for slot in self.tick.get("die", ()):
             p = self.manager.workers[slot]
             if p.state in ("alive", "terminating"):
@@ -227,8 +231,8 @@ class Env:
         if sig:
             self.deliver(sig)
         if self.queue is not None:
-            # the sleep lasts a second: whatever was put during it has reached the pipe
-            self.queue.just_put = False
+            # the sleep lasts a second: whatever was put before or during it has reached the pipe
+            self.queue.flush()
 
 
 def run_history(workers: int, max_fails: int, history: List[Dict[str, Any]], monitor: Any) -> Env:
@@ -288,7 +292,7 @@ def canonical(env: Env) -> Any:
     if env.returned != "running":
         return ("end", env.returned)
     slots = tuple(p.state for p in env.manager.workers)
-    q = tuple((type(i).__name__, getattr(i, "worker_num", None), getattr(i, "is_reload_all", None), o) for i, o in env.queue.items)
+    q = tuple((type(i).__name__, getattr(i, "worker_num", None), getattr(i, "is_reload_all", None), o) for i, o, _ in env.queue.items)
     return ("run", slots, q, getattr(env, "restarts", None), env.monitor.state())
 
 
